@@ -45,7 +45,13 @@ func Arithm(cfg *Config, expr syntax.ArithmExpr) (int, error) {
 				// e.g. a[1]++ (indexed l-values are not supported yet) or ++x++
 				return 0, fmt.Errorf("unsupported assignment target in %q", expr.Op)
 			}
-			old := atoi(cfg.envGet(name))
+			// Like Bash, the old value is the variable evaluated as a word,
+			// so that a name held by the variable is followed.
+			oldInt, err := Arithm(cfg, expr.X)
+			if err != nil {
+				return 0, err
+			}
+			old := int64(oldInt)
 			val := old
 			if expr.Op == syntax.Inc {
 				val++
@@ -216,7 +222,16 @@ func (cfg *Config) assgnArit(b *syntax.BinaryArithm) (int, error) {
 		// e.g. a[1]=2: indexed l-values are not supported yet
 		return 0, fmt.Errorf("unsupported assignment target in %q", b.Op)
 	}
-	val := atoi(cfg.envGet(name))
+	var val int64
+	if b.Op != syntax.Assgn {
+		// Like Bash, the old value is the variable evaluated as a word,
+		// so that a name held by the variable is followed.
+		valInt, err := Arithm(cfg, b.X)
+		if err != nil {
+			return 0, err
+		}
+		val = int64(valInt)
+	}
 	arg_, err := Arithm(cfg, b.Y)
 	if err != nil {
 		return 0, err
